@@ -297,12 +297,4 @@ mod harnesses {
 		kani::cover!(o == Outcome::Holds);
 		assert!(o != Outcome::Violated);
 	}
-	// bounded stand-in: payload <= 3 bytes
-	#[kani::proof]
-	#[kani::unwind(10)]
-	fn hb_rt_ping() {
-		let o = contract_rt_ping(kani::any(), kani::any());
-		kani::cover!(o == Outcome::Holds);
-		assert!(o != Outcome::Violated);
-	}
 }
